@@ -113,6 +113,12 @@ func (p *printer) tok(t string) {
 }
 
 func (p *printer) str(s string) {
+	// A carriage return is the one character the quoted and the raw spelling treat differently
+	// in Go source (a raw string literal drops it; LogQL keeps it): asked twice.
+	if strings.Contains(s, "\r") && CanRaw(s) && p.l.Raw() {
+		p.tok("`" + s + "`")
+		return
+	}
 	if p.l.Raw() && CanRaw(s) {
 		p.tok("`" + s + "`")
 		return
